@@ -190,6 +190,18 @@ func TestObjects(t *testing.T) {
 				}
 			}
 			evid.Count("point." + p.stateClass())
+			{
+				// the flip-key exchange, for (at most two) authors that have flips at this point
+				st := vr.ReadState()
+				played := 0
+				for _, a := range w.Actors {
+					if played < 2 && len(st.State.GetIdentity(a.Addr).Flips) > 0 {
+						evid.Eval()
+						p.keysScenario(a)
+						played++
+					}
+				}
+			}
 			if len(w.Contracts) > 0 {
 				evid.Count("point.feature.contract_deployed")
 			}
@@ -716,6 +728,11 @@ func (p *point) evalKeys() {
 			pkg.Data = flipBits(t, pkg.Data, "packageFlip")
 		}
 	}
+	// the author's public key is usually known by the time its package is used
+	if pick(t, "publicKeyKnown", 3) != 0 {
+		k, _ := types.SignFlipKey(&types.PublicFlipKey{Key: crypto.FromECDSA(flipKey), Epoch: epoch}, a.Key)
+		p.runFast("KeysPool.AddPublicFlipKey", func() string { return "honest public flip key of " + a.String() }, func() { _ = p.v.keys.AddPublicFlipKey(k, false) })
+	}
 	signed, _ := types.SignFlipKeysPackage(pkg, a.Key)
 	var sl string
 	signed.Signature, sl = hostileSig(t, signed.Signature, "packageSig")
@@ -732,10 +749,79 @@ func (p *point) evalKeys() {
 		evid.Count("keys.package.accepted")
 	}
 	// what the ceremony does with a stored package once the author's public key is known
-	for idx := 0; idx < 3; idx++ {
-		p.runFast("KeysPool.GetEncryptedPrivateFlipKey", in, func() { p.v.keys.GetEncryptedPrivateFlipKey(idx, a.Addr) })
+	for idx := 0; idx < 4; idx++ {
+		var got []byte
+		p.runFast("KeysPool.GetEncryptedPrivateFlipKey", in, func() { got = p.v.keys.GetEncryptedPrivateFlipKey(idx, a.Addr) })
+		if got != nil {
+			evid.Count("keys.package.key_extracted")
+		}
 	}
 	evid.NonTrivial(fmt.Sprintf("package|%d|%d|%s|%v", class, int(dec.Epoch)-int(epoch), sl, err == nil))
+}
+
+// keysScenario plays, for one author that has flips, the sequence the flip-key exchange consists of: the author's
+// public flip key, then its package of private keys (hostile content), then the extraction of the entries the
+// ceremony asks for.
+func (p *point) keysScenario(a *sim.Actor) {
+	t, w := p.t, p.w
+	epoch := p.v.r.ReadState().State.Epoch()
+	p.v.keys.Clear() // "sender has already published his keys" otherwise
+	flipKey := sim.DeriveKey(w.P.KeySeed^0x77, a.Idx)
+	pub := ecies.ImportECDSA(flipKey)
+	k, _ := types.SignFlipKey(&types.PublicFlipKey{Key: crypto.FromECDSA(flipKey), Epoch: epoch}, a.Key)
+	var err error
+	p.runFast("KeysPool.AddPublicFlipKey", func() string { return "honest public flip key of " + a.String() }, func() { err = p.v.keys.AddPublicFlipKey(k, false) })
+	if err != nil {
+		evid.Count("keys.scenario.public_key_refused")
+		return
+	}
+	var pairs [][]byte
+	for i := pick(t, "nPairs", 5); i > 0; i-- {
+		pairs = append(pairs, rapid.SampledFrom([][]byte{{}, {1, 2, 3}, make([]byte, 113)}).Draw(t, "pair"))
+	}
+	arr, _ := (&mempool.VerifKeysArray{Pairs: pairs}).ToBytes()
+	class := rapid.SampledFrom([]string{"encrypted-array", "encrypted-array", "encrypted-junk", "encrypted-empty", "bitflip", "truncated", "junk"}).Draw(t, "scenarioPackage")
+	seed := int64(rapid.Uint32().Draw(t, "eciesSeed"))
+	var data []byte
+	switch class {
+	case "encrypted-array", "bitflip", "truncated":
+		data, _ = ecies.Encrypt(mrand.New(mrand.NewSource(seed)), &pub.PublicKey, arr, nil, nil)
+		if class == "bitflip" {
+			data = flipBits(t, data, "scenarioFlip")
+		} else if class == "truncated" && len(data) > 1 {
+			data = data[:pick(t, "scenarioCut", len(data))]
+		}
+	case "encrypted-junk":
+		data, _ = ecies.Encrypt(mrand.New(mrand.NewSource(seed)), &pub.PublicKey, junk(t, "scenarioPlain", 1, 60), nil, nil)
+	case "encrypted-empty":
+		data, _ = ecies.Encrypt(mrand.New(mrand.NewSource(seed)), &pub.PublicKey, nil, nil, nil)
+	default:
+		data = junk(t, "scenarioJunk", 1, 200)
+	}
+	pkg, _ := types.SignFlipKeysPackage(&types.PrivateFlipKeysPackage{Data: data, Epoch: epoch}, a.Key)
+	wire, _ := pkg.ToBytes()
+	dec := new(types.PrivateFlipKeysPackage)
+	if err := dec.FromBytes(wire); err != nil {
+		t.Fatalf("own encoding of a keys package does not decode: %v", err)
+	}
+	in := func() string {
+		return fmt.Sprintf("keysPackage{data(%d)=%x class=%s pairs=%d epoch=%d sender=%s (public flip key published before)} wire=%x", len(dec.Data), clip(dec.Data, 200), class, len(pairs), dec.Epoch, a, clip(wire, 400))
+	}
+	p.runFast("KeysPool.AddPrivateKeysPackage", in, func() { err = p.v.keys.AddPrivateKeysPackage(dec, false) })
+	evid.Count("keys.scenario." + class)
+	if err != nil {
+		evid.Count("keys.scenario.package_refused")
+		return
+	}
+	evid.Count("keys.scenario.package_accepted")
+	for idx := 0; idx < 5; idx++ {
+		var got []byte
+		p.runFast("KeysPool.GetEncryptedPrivateFlipKey", in, func() { got = p.v.keys.GetEncryptedPrivateFlipKey(idx, a.Addr) })
+		if got != nil {
+			evid.Count("keys.scenario.key_extracted")
+		}
+	}
+	evid.NonTrivial(fmt.Sprintf("keys-scenario|%s|%d", class, len(pairs)))
 }
 
 func (p *point) evalFlip() {
